@@ -26,6 +26,10 @@ Print Assumptions C07_label_names_reserved.
 (* the invariant (Proofs/C07.v, PInv: per-scope frame invariant, frames split at the function floor) is
    preserved by the lowering of ANY line kind in ANY state satisfying it — arbitrary sequences, not only
    printed structured programs *)
+Theorem C07_invariant_init : PInv ps_init.
+Proof. exact PInv_init. Qed.
+Print Assumptions C07_invariant_init.
+
 Theorem C07_invariant_step : forall ps lineno line k ps',
   kind_clean k = true -> PInv ps -> kstep ps lineno line k = ROk ps' -> PInv ps'.
 Proof. exact kstep_inv. Qed.
